@@ -165,8 +165,8 @@ class SocketWrapper:
                 break
             if chunk_length != 0:
                 # a chunk cannot be longer than the segment it is read from
-                # (a huge length would overflow the read size)
-                chunk = instream.read(min(chunk_length, len(segment)))
+                # (a huge length, positive or negative, would overflow the read size)
+                chunk = instream.read(max(-1, min(chunk_length, len(segment))))
                 term = instream.readline()
                 if len(chunk) != chunk_length or term[-2:] != b"\r\n":
                     # premature end of chunk bytes or chunk terminator
